@@ -241,8 +241,8 @@ def run_case(ctx, name, params):
                     return
 
         def mk_add(orig):
-            def add(self, individual):
-                ret = orig(self, individual)
+            def add(self, individual, *a, **kw):
+                ret = orig(self, individual, *a, **kw)
                 ctx.count("insitu_add_calls")
                 member = any(x is individual for x in self)
                 if bool(ret) != member:
@@ -253,9 +253,9 @@ def run_case(ctx, name, params):
             return add
 
         def mk_tr(orig):
-            def truncate(self, size, getter, larger_preferred=True):
+            def truncate(self, size, getter, larger_preferred=True, *a, **kw):
                 before = list(self)
-                res = orig(self, size, getter, larger_preferred)
+                res = orig(self, size, getter, larger_preferred, *a, **kw)
                 ctx.count("insitu_truncate_calls")
                 kept = list(self)
                 if len(kept) != min(size, len(before)) or not all(any(k is b for b in before) for k in kept):
